@@ -40,6 +40,7 @@ type svCfg struct {
 }
 
 type svScn struct {
+	ld    lateDial
 	s     *sim.S
 	cfg   svCfg
 	proto protocol.Protocol
@@ -127,6 +128,15 @@ func (c *svScn) step(st string) {
 		}
 		c.pipes[p.Name] = p
 		s.Net.Listener("l1").Offer(p)
+	case "predial":
+		c.ld.predial(s, c.sock)
+	case "ansconn":
+		if c.ld.pending(s) {
+			c.npipe++
+			p := s.Net.NewPipe(fmt.Sprintf("p%d", c.npipe))
+			c.pipes[p.Name] = p
+			c.ld.answer(s, p)
+		}
 	case "drop":
 		if p := c.pipes[arg(1)]; p != nil && !p.IsClosed() {
 			s.Rec.Emit("drop", "p", p.Name)
@@ -325,6 +335,7 @@ func runSurveyor(t *testing.T, cfg svCfg) sim.Result {
 			c.step(st)
 		}
 		c.step("sclose")
+		c.ld.finish(s)
 		for _, p := range c.pipes {
 			if p.Blocked() {
 				p.Release()
@@ -352,6 +363,10 @@ func svScripted() []svCfg {
 	sec := time.Second
 	d := svCtxOpt{SurvExp: sec, QLen: 4}
 	return []svCfg{
+		// a connection attempt that completes after the socket was closed is refused by the closed protocol (nothing of the
+		// closed socket remains); one that completes while the socket is open is a connection like any other
+		{Opts: []svCtxOpt{d}, SQ: 2, Steps: []string{"predial", "sclose", "ansconn", "adv 1s"}},
+		{Opts: []svCtxOpt{d}, SQ: 2, Steps: []string{"conn", "predial", "ansconn", "survey c0", "resp p2 cur c0", "recv c0", "sclose"}},
 		// one message sent as two surveys (the application holds two references): both go out unchanged
 		{Opts: []svCtxOpt{{SurvExp: time.Second, QLen: 4}, {SurvExp: time.Second, QLen: 4}}, SQ: 2, Steps: []string{"conn", "conn", "surveyshared c0", "resp p1 cur c0", "recv c0", "surveyshared c1", "resp p2 cur c1", "recv c1"}},
 		// two respondents answer; stale, foreign and malformed responses; expiry at exactly 1 s
